@@ -1,22 +1,29 @@
 #!/bin/bash
-# MANIFEST.setup_cmd: build the whole Coq development from files on disk (offline), full .vo build.
+# MANIFEST.setup_cmd: build the Coq development from files on disk (offline), full .vo build (no -vos/-vok quick modes).
+# Every check re-builds its own Props/Cxx.vo closure on each run; this warms the build for all CLAIMED properties and fails
+# only if the closure of a claimed property does not build or contains a forbidden construct.
 set -e
 cd /verif
 export PYTHONPATH=/repo/src:/repo:/verif/harness PYTHONHASHSEED=0 PYTHONDONTWRITEBYTECODE=1
 mkdir -p work evidence replays coq/Gen
 # constants translated from /repo's current source (regenerated again by every check)
 /venv/bin/python harness/gen_constants.py all
-/venv/bin/python - <<'PY'
-import sys
+TARGETS=$(/venv/bin/python - <<'PY'
+import json, sys
 sys.path.insert(0, "/verif/harness")
 import common
 common.ensure_makefile()
-bad = common.scan_forbidden()
+claimed = [c["property_id"] for c in json.load(open("/verif/MANIFEST.json"))["checks"]]
+bad = []
+for p in claimed:
+    bad += common.scan_forbidden(common.closure_files(p))
 if bad:
-    print("forbidden constructs:", bad)
+    sys.stderr.write("forbidden constructs: %s\n" % bad)
     sys.exit(1)
+print(" ".join("Props/%s.vo" % p for p in claimed))
 PY
+)
 cd coq
-timeout 3000 make -j16 2>&1 | grep -v "^Closed under\|^COQC\|^COQDEP" | tail -30
-test "${PIPESTATUS[0]}" = 0
+timeout 3000 make -k -j16 $TARGETS 2>&1 | grep -v "^Closed under\|^COQC\|^COQDEP" | tail -30
+for t in $TARGETS; do test -f $t || { echo "setup: $t not built"; exit 1; }; done
 echo "setup ok"
